@@ -40,7 +40,7 @@ REQUIRED = ['recursiveloader:ManifestRecursiveLoader.save_manifests',
             'failing_updates', 'cli_histories', 'cli_multi_histories',
             'histories_in_other_tz', 'histories_with_profile', 'adopt_cases',
             'createfault_fired', 'dangling_cases', 'signfail_cases', 'forcestale_cases',
-            'locale_cases', 'adopt_ignored_file_cases']
+            'locale_cases', 'adopt_ignored_file_cases', 'sharedsum_cases']
 ASSUMPTIONS = ['writes by child processes are invisible to the audit hook; the '
                'snapshot comparison covers them',
                '"Manifest file" = a file named Manifest[.gz|.bz2|.lzma|.xz] or referenced '
@@ -60,7 +60,7 @@ def units(tier, seed):
     return [{'k': 'gen', 'i': i, 'n': PER_UNIT} for i in range(N[tier] // PER_UNIT)] + \
         [{'k': 'multi', 'i': i, 'n': 6} for i in range(4 if tier == 'quick' else 100)] + \
         [{'k': 'adopt'}, {'k': 'createfault'}, {'k': 'dangling'}, {'k': 'signfail'},
-         {'k': 'forcestale'}, {'k': 'locale'}]
+         {'k': 'forcestale'}, {'k': 'locale'}, {'k': 'sharedsum'}]
 
 
 def setup_worker(ctx):
@@ -999,6 +999,74 @@ def exec_forcestale(ctx, case):
                           'back: %r -> %r' % (rc, before, after), case)
 
 
+def exec_sharedsum(ctx, case):
+    """Entries that are equal in size and checksums (files with one content, a distfile
+    unpacked next to itself) are still separate entries: updating the directory of one
+    of them - which has a twin with another hash set, so the deduplication merges into
+    it - leaves the others, outside that directory, and the DIST line as they were."""
+    import hashlib
+    from gemato import cli as gcli
+    from gemato.recursiveloader import ManifestRecursiveLoader
+    with common.Scratch('vf-c10q-') as d:
+        root = os.path.join(d, 't')
+        data = b'one content'
+        for sub in ('a', 'b'):
+            os.makedirs(os.path.join(root, sub))
+        for pth in ('a/foo', 'b/bar'):
+            with open(os.path.join(root, pth), 'wb') as f:
+                f.write(data)
+        sha = hashlib.sha256(data).hexdigest()
+        ents = [mtext.file_entry('DATA', 'a/foo', data, ['SHA256']),
+                mtext.file_entry('DATA', 'b/bar', data, ['SHA256']),
+                {'tag': 'DIST', 'path': 'same.tar', 'size': len(data),
+                 'sums': {'SHA256': sha}},
+                mtext.file_entry('DATA', 'a/foo', data, [case['other']])]
+        if case['order']:
+            ents.reverse()
+        with open(os.path.join(root, 'Manifest'), 'w') as f:
+            f.write(mtext.render(ents))
+        mans0 = manifest_state(root)
+        keep0 = lines_of(mans0, 'DIST')
+        before = file_entries(mans0).get('b/bar')
+        ctx.case(sig=('sharedsum', case['api'], case['other'], case['order']), case=case,
+                 klass='sharedsum')
+        ctx.count('sharedsum_cases')
+        hs = ['SHA256', case['other']] if case['union'] else ['SHA256']
+        try:
+            if case['api'] == 'cli':
+                rc = gcli.main(['gemato', 'update', '--hashes', ' '.join(hs),
+                                os.path.join(root, 'a')])
+            else:
+                m = ManifestRecursiveLoader(os.path.join(root, 'Manifest'),
+                                            verify_openpgp=False, hashes=hs)
+                m.update_entries_for_directory('a')
+                m.save_manifests()
+                rc = 0
+        except SystemExit:
+            rc = 'exit'
+        except Exception as exc:
+            rc = exc
+        mans1 = manifest_state(root)
+        after = file_entries(mans1).get('b/bar')
+        if lines_of(mans1, 'DIST') != keep0:
+            ctx.violation('DIST-lines-not-preserved:equal-checksums',
+                          'update of a/ (result %r): DIST line changed %r -> %r'
+                          % (rc, sorted(keep0), sorted(lines_of(mans1, 'DIST'))), case)
+        elif after != before:
+            ctx.violation('out-of-scope-entry-changed:equal-checksums',
+                          'update of a/ (result %r) changed the entry of b/bar: %r -> %r'
+                          % (rc, before, after), case)
+
+
+def run_sharedsum(u, ctx):
+    for api in ('cli', 'lib'):
+        for other in ('MD5', 'SHA512'):
+            for order in (0, 1):
+                for union in (False, True):
+                    exec_sharedsum(ctx, {'kind': 'sharedsum', 'api': api, 'other': other,
+                                         'order': order, 'union': union})
+
+
 def exec_locale(ctx, case):
     """Manifest files are UTF-8 whatever the locale of the process: an update run under
     a non-UTF-8 locale keeps the DIST / IGNORE lines with non-ASCII names."""
@@ -1088,6 +1156,8 @@ def run_unit(u, ctx):
         return run_signfail(u, ctx)
     if u.get('k') == 'forcestale':
         return run_forcestale(u, ctx)
+    if u.get('k') == 'sharedsum':
+        return run_sharedsum(u, ctx)
     if u.get('k') == 'locale':
         return run_locale(u, ctx)
     if u.get('k') == 'multi':
@@ -1167,6 +1237,8 @@ def replay(case, ctx):
         return exec_dangling(ctx, case)
     if case.get('kind') == 'signfail':
         return exec_signfail(ctx, case)
+    if case.get('kind') == 'sharedsum':
+        return exec_sharedsum(ctx, case)
     if case.get('kind') == 'forcestale':
         return exec_forcestale(ctx, case)
     if case.get('kind') == 'locale':
